@@ -126,7 +126,7 @@ pub fn case_s() -> BoxedStrategy<PCase> {
         stores,
         tweaks,
         prints,
-        (0u8..3, proptest::collection::vec(any::<u8>(), 40), any::<bool>(), any::<bool>()),
+        (0u8..4, proptest::collection::vec(any::<u8>(), 40), any::<bool>(), any::<bool>()),
     )
         .prop_map(|(data, regs, (dsv, esv, ssv), fw, stores, tweaks, prints, (variant, choices, comments, ah_sahf))| {
             let mut code: Vec<Item> = Vec::new();
@@ -173,6 +173,23 @@ pub fn case_s() -> BoxedStrategy<PCase> {
                     script.push(PromptCmd::Print(p.clone(), prompt_text(p, false)));
                 }
                 script.push(PromptCmd::Next("n".into()));
+            } else if variant == 3 {
+                // the same print statements executed two or three times (a loop), with DS, a register, memory and the flags
+                // changed between the passes: a statement shows the state of the moment it runs, every time it runs
+                let passes = 2 + (choices[0] as u16 & 1);
+                let k = 0x0011 + ((choices[1] as u16) << 4 | choices[2] as u16 & 0x0F0F);
+                code.push(mov16(R16::DI, passes));
+                code.push(Item::Label("again".into()));
+                for p in &prints {
+                    code.push(Item::Print(p.clone()));
+                }
+                code.push(Item::Ins(Insn::new("mov", vec![Opd::R16(R16::AX), Opd::Sr(Seg::DS)])));
+                code.push(Item::Ins(Insn::new("add", vec![Opd::R16(R16::AX), Opd::Imm(k, ImmKind::SW)])));
+                code.push(movsr(Seg::DS, R16::AX));
+                code.push(Item::Ins(Insn::new("add", vec![Opd::R16(R16::BX), Opd::Imm(0x1111, ImmKind::SW)])));
+                code.push(Item::Ins(Insn::new("mov", vec![Opd::Mem(W::B, Mem { seg: None, shape: Shape::Direct(choices[3] as u16 % 32) }), Opd::Imm(0xA0 | (choices[4] as u16 & 0x0F), ImmKind::SB)])));
+                code.push(Item::Ins(Insn::new("sub", vec![Opd::R16(R16::DI), Opd::Imm(1, ImmKind::SW)])));
+                code.push(Item::Ins(Insn::new("jnz", vec![Opd::Name("again".into())])));
             } else {
                 for p in &prints {
                     code.push(Item::Print(p.clone()));
@@ -261,6 +278,12 @@ pub fn eval_with(c: &PCase, refusal_any: bool, interpreted: bool) -> CaseOutcome
     }
     // classes
     let mut classes = vec![if c.script.is_empty() { "c17/in-program".to_string() } else { "c17/at-prompt".to_string() }];
+    if c.prog.code.iter().any(|i| matches!(i, Item::Label(n) if n == "again")) {
+        classes.push("c17/same-statement-again-after-the-state-changed".into());
+        if c.prog.code.iter().any(|i| matches!(i, Item::Print(PrintStmt::MemDs(_)))) {
+            classes.push("c17/ds-relative-dump-again-after-DS-changed".into());
+        }
+    }
     let mut nt = false;
     for e in &rr.events {
         match e {
@@ -465,4 +488,6 @@ pub fn run(ctx: &Ctx) {
     ctx.require_class("c17/at-prompt", 50);
     ctx.require_class("c17/mem-len-not-multiple-of-16", 50);
     ctx.require_class("c17/refused", 5);
+    ctx.require_class("c17/same-statement-again-after-the-state-changed", 50);
+    ctx.require_class("c17/ds-relative-dump-again-after-DS-changed", 20);
 }
